@@ -30,6 +30,13 @@ func init() {
 		"(reflect.Value).SetString":     reflectSetter("SetString", types.String, reflect.String),
 		"(reflect.Value).SetLen":        ext۰reflect۰Value۰SetLen,
 		"(reflect.Value).FieldByIndex":  ext۰reflect۰Value۰FieldByIndex,
+		"(reflect.Value).FieldByIndexErr": func(fr *frame, a []value) value {
+			v, msg := fieldByIndex(fr, a[0], a[1])
+			if msg != "" {
+				return tuple{makeReflectValue(nil, nil), errorValue(fr, msg)}
+			}
+			return tuple{v, iface{}}
+		},
 		"(reflect.Value).UnsafePointer": ext۰reflect۰Value۰Pointer,
 		"(reflect.Value).Complex":       ext۰reflect۰Value۰Complex,
 		"reflect.PointerTo":             ext۰reflect۰PointerTo,
@@ -216,15 +223,32 @@ func ext۰reflect۰Value۰SetLen(fr *frame, args []value) value {
 }
 
 func ext۰reflect۰Value۰FieldByIndex(fr *frame, args []value) value {
-	v := args[0]
-	idx, _ := args[1].([]value)
+	v, msg := fieldByIndex(fr, args[0], args[1])
+	if msg != "" {
+		panic(reflectPanic(fr, "reflect: indirection through nil pointer to embedded struct"))
+	}
+	return v
+}
+
+// fieldByIndex walks nested fields; a nil pointer to an embedded struct on the
+// way yields the message FieldByIndex panics with and FieldByIndexErr returns.
+func fieldByIndex(fr *frame, v value, index value) (value, string) {
+	idx, _ := index.([]value)
 	for k, x := range idx {
 		if k > 0 {
 			if t := rV2T(v).t; t != nil {
 				if pt, ok := t.Underlying().(*types.Pointer); ok {
-					if _, ok := pt.Elem().Underlying().(*types.Struct); ok {
+					if st, ok := pt.Elem().Underlying().(*types.Struct); ok {
+						_ = st
 						if p, _ := rV2V(v).(*value); p == nil {
-							panic(reflectPanic(fr, "reflect: indirection through nil pointer to embedded struct"))
+							name := typeString(pt.Elem())
+							if n, ok := pt.Elem().(*types.Named); ok {
+								name = n.Obj().Name()
+							}
+							if k == 1 && len(idx) > 0 {
+								return nil, "reflect: indirection through nil pointer to embedded struct field " + name
+							}
+							return nil, "reflect: indirection through nil pointer to embedded struct field " + name
 						}
 						v = reflectElem(fr, v)
 					}
@@ -233,7 +257,7 @@ func ext۰reflect۰Value۰FieldByIndex(fr *frame, args []value) value {
 		}
 		v = ext۰reflect۰Value۰Field(fr, []value{v, x})
 	}
-	return v
+	return v, ""
 }
 
 func ext۰reflect۰Value۰Complex(fr *frame, args []value) value {
